@@ -1,6 +1,7 @@
 """R-DEPTH-CYCLE and R-DEPTH-BALANCE: recursion of the parser is charged to a
 depth counter on every cycle of its call graph, and the counter is balanced."""
 from . import cfg, common, facts
+from . import facts as facts_mod
 
 FIELD = "remaining_depth"
 TOP = "T"
@@ -65,31 +66,178 @@ def depth_effects(fn):
     return eff
 
 
-def delta_dataflow(fn):
-    """Forward may-analysis: set of possible depth deltas at entry of each block."""
+def _stmt_effects(fn):
+    """Per block: ordered list of ('d', k) depth effects and ('f', ...) variant-fact updates."""
     eff = depth_effects(fn)
-    state = {0: frozenset([0])}
+    return eff
+
+
+MAX_ELEMS = 96
+
+
+def flow(fn, summaries=None, resolve=None):
+    """Forward analysis of the depth counter, path-sensitive in the variant of Result/Option locals.
+
+    An element is (delta, guarded, facts): the change of remaining_depth since entry, whether a
+    `remaining_depth == 0` test was passed on its non-zero edge since the last decrement, and the known variants
+    of locals (set by aggregate assignments, by calls of summarised helpers and carried through `?`).
+    `summaries`: callee path -> list of (variant or None, delta, guarded) outcomes of local helpers that change the
+    counter (e.g. `enter_nested() -> Result<()>`: Ok with -1 after the test, Err with 0).
+    Returns (entry, pre_term, rets): states at block entry, before each terminator, and at return."""
+    summaries = summaries or {}
+    eff_by_stmt = {}
+    defs = common.defs_of(fn)
+    for bi, b in enumerate(fn.blocks):
+        for si, st in enumerate(b["stmts"]):
+            if st["k"] == "assign" and is_depth_place(st["place"]):
+                eff_by_stmt[(bi, si)] = _store_kind(fn, defs, st)
+    zt = zero_tests(fn)
+    entry = {0: {(0, False, frozenset())}}
+    pre_term = {}
     work = [0]
-    out_state = {}
     while work:
         b = work.pop()
-        cur = state[b]
-        for (k, _line) in eff.get(b, []):
-            if k == TOP or TOP in cur:
-                cur = frozenset([TOP])
+        blk = fn.blocks[b]
+        outs = set()
+        for (delta, guarded, facts) in entry[b]:
+            fd = dict(facts)
+            for si, st in enumerate(blk["stmts"]):
+                if st["k"] != "assign":
+                    continue
+                if (b, si) in eff_by_stmt:
+                    k = eff_by_stmt[(b, si)]
+                    if k == TOP or delta == TOP:
+                        delta = TOP
+                    else:
+                        delta += k
+                        if k == -1:
+                            guarded = False
+                        if abs(delta) > 4:
+                            delta = TOP
+                    continue
+                pl = st["place"]
+                if pl["p"]:
+                    continue
+                l = pl["l"]
+                rv = st["rv"]
+                fd.pop(l, None)
+                fd.pop(("d", l), None)
+                if rv["k"] == "agg" and "adt" in rv and rv["adt"] in ("std::result::Result", "std::option::Option",
+                                                                      "std::ops::ControlFlow"):
+                    fd[l] = rv["variant"]
+                elif rv["k"] == "use" and rv["op"].get("c") in ("copy", "move") and not rv["op"]["pl"]["p"]:
+                    m = rv["op"]["pl"]["l"]
+                    if m in fd:
+                        fd[l] = fd[m]
+                elif rv["k"] == "discr" and not rv["pl"]["p"] and rv["pl"]["l"] in fd:
+                    fd[("d", l)] = fd[rv["pl"]["l"]]
+            outs.add((delta, guarded, frozenset(fd.items())))
+        if len(outs) > MAX_ELEMS:
+            outs = {(TOP, False, frozenset())}
+        pre_term.setdefault(b, set()).update(outs)
+        t = blk["term"]
+        nxt = {}    # succ -> set of elements
+
+        def push(sb, el):
+            if sb is None or fn.is_cleanup(sb):
+                return
+            nxt.setdefault(sb, set()).add(el)
+
+        for (delta, guarded, facts) in outs:
+            fd = dict(facts)
+            if t["k"] == "call":
+                dst = t["dest"]["l"] if not t["dest"]["p"] else None
+                if dst is not None:
+                    fd.pop(dst, None)
+                    fd.pop(("d", dst), None)
+                names = facts_mod.callee_names(t)
+                tgt = resolve(t) if resolve else None
+                if tgt in summaries:
+                    for (v, d, g) in summaries[tgt]:
+                        fd2 = dict(fd)
+                        if dst is not None and v is not None:
+                            fd2[dst] = v
+                        nd = TOP if (delta == TOP or d == TOP) else delta + d
+                        ng = g if (d != 0 and d != TOP) else (guarded or g)
+                        push(t.get("t"), (nd, ng, frozenset(fd2.items())))
+                    continue
+                if "std::ops::Try::branch" in names and t["args"] and dst is not None:
+                    a = t["args"][0]
+                    if a.get("c") in ("copy", "move") and not a["pl"]["p"] and a["pl"]["l"] in fd:
+                        v = fd[a["pl"]["l"]]
+                        aty = (t.get("arg_tys") or [""])[0]
+                        if aty.startswith("std::result::Result"):
+                            fd[dst] = v            # Ok(0) -> Continue(0), Err(1) -> Break(1)
+                        elif aty.startswith("std::option::Option"):
+                            fd[dst] = 1 - v        # Some(1) -> Continue(0), None(0) -> Break(1)
+                elif "std::ops::FromResidual::from_residual" in names and dst is not None:
+                    rty = fn.local_ty(dst)
+                    if rty.startswith("std::result::Result"):
+                        fd[dst] = 1
+                    elif rty.startswith("std::option::Option"):
+                        fd[dst] = 0
+                push(t.get("t"), (delta, guarded, frozenset(fd.items())))
+            elif t["k"] == "switch":
+                op = t["op"]
+                known = None
+                if op.get("c") in ("copy", "move") and not op["pl"]["p"]:
+                    known = fd.get(("d", op["pl"]["l"]))
+                if known is not None:
+                    tg = t["otherwise"]
+                    for v, x in t["targets"]:
+                        if v == known:
+                            tg = x
+                    push(tg, (delta, guarded, facts))
+                elif b in zt:
+                    nz, z = zt[b]
+                    for sb in set(fn.succs(b)):
+                        push(sb, (delta, True if (sb == nz and sb != z) else guarded, facts))
+                else:
+                    for sb in set(fn.succs(b)):
+                        push(sb, (delta, guarded, facts))
             else:
-                cur = frozenset(x + k for x in cur)
-                if any(abs(x) > 4 for x in cur):
-                    cur = frozenset([TOP])
-        out_state[b] = cur
-        for s in fn.succs(b):
-            if fn.is_cleanup(s):
-                continue
-            new = state.get(s, frozenset()) | cur
-            if new != state.get(s):
-                state[s] = new
-                work.append(s)
-    return state, out_state, eff
+                for sb in set(fn.succs(b)):
+                    push(sb, (delta, guarded, facts))
+        for sb, els in nxt.items():
+            cur = entry.get(sb, set())
+            new = cur | els
+            if len(new) > MAX_ELEMS:
+                new = {(TOP, False, frozenset())}
+            if new != cur:
+                entry[sb] = new
+                work.append(sb)
+    rets = set()
+    for bi, blk in enumerate(fn.blocks):
+        if blk["term"]["k"] == "return" and bi in pre_term and not fn.is_cleanup(bi):
+            for (delta, guarded, facts) in pre_term[bi]:
+                rets.add((dict(facts).get(0), delta, guarded))
+    return entry, pre_term, rets
+
+
+def _store_kind(fn, defs, s):
+    rv = s["rv"]
+    k = TOP
+    if rv["k"] == "use" and rv["op"].get("c") in ("move", "copy"):
+        src = rv["op"]["pl"]
+        if src["p"] and isinstance(src["p"][0], dict) and src["p"][0].get("f") == 0:
+            for (db, si, d) in defs.get(src["l"], []):
+                if isinstance(d, dict) and d.get("k") == "bin" and d["op"] in ("SubWithOverflow", "AddWithOverflow", "Sub", "Add"):
+                    a, b2 = d["a"], d["b"]
+                    if a.get("c") in ("copy", "move") and is_depth_place(a["pl"]) and common.const_int(b2) == 1:
+                        k = -1 if d["op"].startswith("Sub") else 1
+    elif rv["k"] == "bin" and rv["op"] in ("Sub", "Add", "SubUnchecked", "AddUnchecked"):
+        a, b2 = rv["a"], rv["b"]
+        if a.get("c") in ("copy", "move") and is_depth_place(a["pl"]) and common.const_int(b2) == 1:
+            k = -1 if rv["op"].startswith("Sub") else 1
+    return k
+
+
+def delta_dataflow(fn, summaries=None, resolve=None):
+    """Compatibility view of flow(): sets of deltas at block entry / before the terminator."""
+    entry, pre, _ = flow(fn, summaries, resolve)
+    eff = depth_effects(fn)
+    return ({b: frozenset(e[0] for e in v) for b, v in entry.items()},
+            {b: frozenset(e[0] for e in v) for b, v in pre.items()}, eff)
 
 
 def zero_tests(fn):
@@ -172,6 +320,41 @@ def check_depth(ctx, crate, r_cycle, r_bal):
         return
     n_fns = sum(len(c) for c in parser_comps)
     r_cycle.floor("scc-functions", n_fns)
+    in_scc = {p for c in parser_comps for p in c}
+    by_path = {}
+    for f in crate.fns:
+        by_path.setdefault(f.path, f)
+
+    def resolve(t):
+        c = t["callee"]
+        tgt = c.get("resolved") if c.get("resolved_crate") == crate.name else None
+        if tgt is None and c.get("crate") == crate.name and "trait" not in c:
+            tgt = c.get("path")
+        return tgt if tgt in by_path else None
+
+    # summaries of local helpers outside the recursive cycle that change the counter (enter/leave style helpers)
+    summaries = {}
+    state = {}
+
+    def summarise(path):
+        if path in state:
+            return
+        state[path] = "busy"
+        f = by_path[path]
+        for _bi, t in f.calls():
+            tg = resolve(t)
+            if tg and tg not in in_scc and state.get(tg) != "busy":
+                summarise(tg)
+        _e, _p, rets = flow(f, summaries, resolve)
+        state[path] = "done"
+        if any(d != 0 for (_v, d, _g) in rets):
+            summaries[path] = sorted(rets, key=repr)
+
+    for f in crate.fns:
+        if f.path not in in_scc and (f.file.endswith("parse/mod.rs") or f.file.endswith("parse/read.rs")):
+            summarise(f.path)
+    for hp, outs in sorted(summaries.items()):
+        r_cycle.note("helper %s changes the counter: outcomes (result variant, delta, tested) = %s" % (hp, outs))
 
     for comp in parser_comps:
         cs = set(comp)
@@ -181,11 +364,13 @@ def check_depth(ctx, crate, r_cycle, r_bal):
             for (fn, bi, t, callee_owner) in edges.get(o, []):
                 if callee_owner not in cs:
                     continue
-                st, _out, _eff = delta_dataflow(fn)
+                _entry, pre, _rets = flow(fn, summaries, resolve)
                 zt = zero_tests(fn)
                 idom = cfg.dominators(fn)
-                delta = st.get(bi)
-                guarded = any(cfg.dominates(idom, nz, bi) and nz != z for (_tb, (nz, z)) in zt.items())
+                els = pre.get(bi, set())
+                delta = frozenset(e[0] for e in els)
+                dom_guard = any(cfg.dominates(idom, nz, bi) and nz != z for (_tb, (nz, z)) in zt.items())
+                guarded = bool(els) and all(e[1] or dom_guard for e in els)
                 if delta == frozenset([-1]) and guarded:
                     charged_n += 1
                     r_cycle.ok("%s -> %s is charged (depth delta -1, dominated by the depth != 0 edge)" % (o, callee_owner),
@@ -220,8 +405,22 @@ def check_depth(ctx, crate, r_cycle, r_bal):
     # ---------------- balance: every fn that touches the counter
     touched = 0
     for fn in crate.fns:
-        st, out_state, eff = delta_dataflow(fn)
-        if not eff:
+        st, out_state, eff = delta_dataflow(fn, summaries, resolve)
+        calls_helper = any(resolve(t) in summaries for _bi, t in fn.calls())
+        if not eff and not calls_helper:
+            continue
+        if fn.path in summaries:
+            # a helper that hands a changed counter to its caller: legitimate only as a private building block whose
+            # callers are all analysed with its summary (they are: every local caller is)
+            outs = summaries[fn.path]
+            if fn.is_pub:
+                r_bal.violation(fn.path, "public-helper-unbalanced",
+                                "%s is public and returns with the depth counter changed (%s)" % (fn.path, outs), fn.loc())
+            elif any(d == TOP or abs(d) > 1 for (_v, d, _g) in outs):
+                r_bal.violation(fn.path, "untracked-store",
+                                "%s changes remaining_depth by more than one step or in an untracked way (%s)" % (fn.path, outs), fn.loc())
+            else:
+                r_bal.ok("%s: helper with counter outcomes %s, accounted for at each call site" % (fn.path, outs), fn)
             continue
         touched += 1
         bad = False
